@@ -144,7 +144,9 @@ def tlc(ctx, family, module, cfg, workers="auto", extra=(), env=None, timeout=18
     for f in os.listdir(os.path.join(SPEC, "common")) if os.path.isdir(os.path.join(SPEC, "common")) else []:
         shutil.copyfile(os.path.join(SPEC, "common", f), os.path.join(d, f))
     meta = os.path.join(d, "meta")
-    cmd = ["java", "-XX:+UseParallelGC", "-Xss512m"] + list(jvm) + ["-cp", TLA_CP, "tlc2.TLC",
+    jtmp = os.path.join(d, "jtmp")   # TLC's tlc-<n> scratch directories go here, not to /tmp
+    os.makedirs(jtmp, exist_ok=True)
+    cmd = ["java", "-XX:+UseParallelGC", "-Xss512m", "-Djava.io.tmpdir=" + jtmp] + list(jvm) + ["-cp", TLA_CP, "tlc2.TLC",
            "-workers", str(workers), "-metadir", meta, "-config", cfg] + list(extra) + [module + ".tla"]
     if not deadlock:
         cmd.insert(-1, "-deadlock")
@@ -164,6 +166,7 @@ def tlc(ctx, family, module, cfg, workers="auto", extra=(), env=None, timeout=18
                              depth=res["depth"], wall_s=round(res["wall"], 2)))
     ctx.cmds.append("tlc -workers %s -config %s %s %s.tla" % (workers, cfg, " ".join(extra), module))
     shutil.rmtree(meta, ignore_errors=True)
+    shutil.rmtree(jtmp, ignore_errors=True)
     if rc == 124:
         raise Inconclusive("TLC timed out: %s %s" % (module, cfg))
     if "java.lang.OutOfMemoryError" in out or "StackOverflowError" in out:
